@@ -139,6 +139,9 @@ type Tracker struct {
 	maxPage   int
 	fault     *Fault
 	faultHits int
+	firstAt   time.Time // wall-clock arrival of the first request of the round
+	// SlowOnce: the second request of the next round is answered after this delay (reset by EndRound)
+	SlowOnce time.Duration
 	unknown   []string
 	badAuth   int
 }
@@ -435,6 +438,9 @@ type RoundLog struct {
 	FaultHits  int
 	Unknown    []string // requests for endpoints the simulation does not implement
 	BadAuth    int
+	// FirstRequestAt is the wall-clock time at which the first request of the round arrived (zero: none). Whatever the
+	// client did before sending it happened before that moment.
+	FirstRequestAt time.Time
 }
 
 // BeginRound clears the request log and installs the fault (nil = none).
@@ -442,6 +448,7 @@ func (t *Tracker) BeginRound(f *Fault) {
 	t.mu.Lock()
 	defer t.mu.Unlock()
 	t.round, t.served, t.maxPage, t.faultHits, t.unknown, t.badAuth = nil, 0, 0, 0, nil, 0
+	t.firstAt = time.Time{}
 	if f != nil {
 		c := *f
 		t.fault = &c
@@ -464,7 +471,8 @@ func (t *Tracker) EndRound() RoundLog {
 	}
 	sort.Strings(ids)
 	t.fault = nil
-	return RoundLog{Identities: ids, Requests: t.served, MaxPage: t.maxPage, FaultHits: t.faultHits, Unknown: t.unknown, BadAuth: t.badAuth}
+	t.SlowOnce = 0
+	return RoundLog{Identities: ids, Requests: t.served, MaxPage: t.maxPage, FaultHits: t.faultHits, Unknown: t.unknown, BadAuth: t.badAuth, FirstRequestAt: t.firstAt}
 }
 
 // EndpointClass maps a request identity to the kind of endpoint.
@@ -595,6 +603,16 @@ func (t *Tracker) handle(w http.ResponseWriter, r *http.Request) {
 
 	t.mu.Lock()
 	t.served++
+	if t.served == 1 {
+		t.firstAt = time.Now()
+	}
+	if t.served == 2 && t.SlowOnce > 0 {
+		// a slow answer (a loaded instance): the second request of the round waits before it is looked at
+		d := t.SlowOnce
+		t.mu.Unlock()
+		time.Sleep(d)
+		t.mu.Lock()
+	}
 	t.round = append(t.round, id)
 	if page > t.maxPage {
 		t.maxPage = page
